@@ -12,12 +12,13 @@ permissions attached to that key allow its method and path; otherwise it is refu
 Every theorem below is for ALL handlers / configurations, listen addresses, id indexes, requests,
 handler effects `H`, initial states, recursion budgets (= any number of /id/ redirects) and for
 EVERY routing function `mux` (= every route table modules can register, whatever pattern syntax
-they use; `muxOf` is the instance the driver runs).  One clause does not hold of the code as it is; its negation is proved in
-`Witness.lean` (imported here so that it is built and audited with the theorems) and the provable part is the `_partial` theorem here:
-  * "missing Origin/Referer is refused"                (when an allowed origin has an empty host)
-The websocket clause was false until /repo cc84cea (case variants, later header values); it now
-holds at full strength (`websocket_refused`); `Witness.websocket_old_code_fails` keeps the two
-former counter-examples as a statement about the OLD test.
+they use; `muxOf` is the instance the driver runs).  Every clause now holds of the code as it is.  Two clauses were false of earlier code and were
+repaired in /repo; `Witness.lean` (imported here so that it is built and audited with the
+theorems) keeps their former counter-examples as statements about the OLD checks:
+  * "websocket upgrades are always refused" — false until /repo cc84cea (case variants, later
+    header values); now `websocket_refused`; old: `Witness.websocket_old_code_fails`
+  * "missing Origin/Referer is refused" — false when an allowed origin had an empty host until
+    the `checkOrigin` fix; now `origin_missing_refused`; old: `Witness.origin_missing_old_code_fails`
 -/
 import CaddyModel.C13.Lemmas
 import CaddyModel.C13.Witness
@@ -111,7 +112,7 @@ theorem origin_gate (H : Bytes → Req → σ → σ) (mux : Bytes → Bytes →
   obtain ⟨⟨c, hp⟩, _⟩ := every_dispatch_is_gated H mux h idx fuel r s d hd
   have hl := ((gate_pass_iff h _ c).1 hp).2
   rw [localGate_withPath] at hl
-  obtain ⟨hok, hal⟩ := (localGate_pass h r c hl).2.2 he
+  obtain ⟨_, hok, hal⟩ := (localGate_pass h r c hl).2.2 he
   exact ho ⟨hok, (originAllowed_iff h _).1 hal⟩
 
 /-- **origin gate** (configuration level, second clause): on a local endpoint with
@@ -126,28 +127,31 @@ theorem local_endpoint_rejects_foreign_origin (H : Bytes → Req → σ → σ) 
     have hal' : al ∈ allowedOrigins cfg.origins a := by simpa [newAdminHandler] using hal
     exact ho ⟨hok, al.scheme, hhost ▸ (mem_allowedOrigins_iff cfg a al).1 hal', hsch⟩
 
-/-
-FULL STATEMENT (does not hold, see `Witness.origin_missing_refused_full_fails`):
-    cfg.enforceOrigin = true → OriginMissing r → Untouched (serveHTTP … r s) s
-`getOrigin` parses the empty string successfully, so a missing header is not "missing or invalid"
-but the origin with an empty host; it is refused unless an allowed origin has an empty host.
--/
-/-- **missing origin**, provable part: excluded are configurations in which some allowed origin has
-    an empty host (decidable: `(allowedOrigins cfg.origins a).all (·.host ≠ [])`).  The hypothesis
-    on `refererUrl` is the table fact `url.Parse("") = &URL{}`. -/
-theorem origin_missing_refused_partial (H : Bytes → Req → σ → σ) (mux : Bytes → Bytes → Route) (cfg : AdminCfg) (a : Addr)
+/-- **missing origin** (handler level, full strength since the `checkOrigin` fix): with origin
+    enforcement on, a request that carries neither an Origin nor a Referer header reaches no
+    handler and changes no state — whatever the allowed origins are (an allowed origin with an
+    empty host included) and whatever `url.Parse("")` is said to return. -/
+theorem missing_origin_gate (H : Bytes → Req → σ → σ) (mux : Bytes → Bytes → Route) (h : Handler)
+    (idx : Index) (fuel : Nat) (r : Req) (s : σ)
+    (he : h.enforceOrigin = true) (hm : OriginMissing r) :
+    Untouched (serveHTTP H mux h idx fuel r s) s := by
+  apply serve_untouched_of_no_dispatch
+  intro d hd
+  obtain ⟨⟨c, hp⟩, _⟩ := every_dispatch_is_gated H mux h idx fuel r s d hd
+  have hl := ((gate_pass_iff h _ c).1 hp).2
+  rw [localGate_withPath] at hl
+  have hne := ((localGate_pass h r c hl).2.2 he).1
+  exact hne (by simp [originStr, hm.1, hm.2])
+
+/-- **missing origin** (configuration level, the "missing" half of the second clause): on a local
+    endpoint with `enforce_origin`, a request without Origin/Referer is never served. -/
+theorem origin_missing_refused (H : Bytes → Req → σ → σ) (mux : Bytes → Bytes → Route) (cfg : AdminCfg) (a : Addr)
     (modulePats : List Bytes) (idx : Index) (fuel : Nat) (r : Req) (s : σ)
-    (he : cfg.enforceOrigin = true) (hm : OriginMissing r) (hparse : r.refererUrl = ⟨true, [], []⟩)
-    (hex : (allowedOrigins cfg.origins a).all (fun al => al.host != []) = true) :
+    (he : cfg.enforceOrigin = true) (hm : OriginMissing r) :
     Untouched (serveHTTP H mux (newAdminHandler cfg a false modulePats) idx fuel r s) s := by
-  apply origin_gate
+  apply missing_origin_gate
   · simpa [newAdminHandler] using he
-  · rintro ⟨_, al, hal, _, hhost⟩
-    have hal' : al ∈ allowedOrigins cfg.origins a := by simpa [newAdminHandler] using hal
-    have hne := List.all_eq_true.1 hex al hal'
-    have : getOrigin r = ⟨true, [], []⟩ := by simp [getOrigin, hm.1, hparse]
-    rw [this] at hhost
-    simp [hhost] at hne
+  · exact hm
 
 /-- **CORS headers are granted only to allowed origins**: `Access-Control-Allow-Origin` (and, for
     OPTIONS, the other `Access-Control-Allow-*` headers) is present on a response only if origin
@@ -170,7 +174,7 @@ theorem cors_only_for_allowed_origin (H : Bytes → Req → σ → σ) (mux : By
         · simp [heo] at hl
           exact absurd hl.symm hne
     | true =>
-      obtain ⟨hok, hal⟩ := (localGate_pass h r c' hl).2.2 heo
+      obtain ⟨_, hok, hal⟩ := (localGate_pass h r c' hl).2.2 heo
       exact ⟨rfl, hok, (originAllowed_iff h _).1 hal⟩
 
 -- ================================================================ websocket
@@ -369,10 +373,12 @@ example : gate (newAdminHandler exCfg exAddr false exPats) exCsrf = .refuse .ori
 -- cors_only_for_allowed_origin: the served request above carries the header, an OPTIONS preflight all of them
 example : (serveReal count (newAdminHandler exCfg exAddr false exPats) exIdx 3 exGood 0).cors = 1 ∧
     (serveReal count (newAdminHandler exCfg exAddr false exPats) exIdx 3 { exGood with method := sOPTIONS } 0).cors = 2 := by decide
--- origin_missing_refused_partial: default origins have no empty host; the request has no Origin
+-- missing_origin_gate / origin_missing_refused: the request has no Origin; also with the empty-host origin configured
 def exNoOrigin : Req := { exGood with origin := [], originUrl := emptyUrl }
-example : exCfg.enforceOrigin = true ∧ OriginMissing exNoOrigin ∧ exNoOrigin.refererUrl = ⟨true, [], []⟩ ∧
-    (allowedOrigins exCfg.origins exAddr).all (fun al => al.host != []) = true := by decide
+example : exCfg.enforceOrigin = true ∧ OriginMissing exNoOrigin ∧
+    (newAdminHandler exCfg exAddr false exPats).enforceOrigin = true := by decide
+example : (serveReal count (newAdminHandler wCfgEmptyOrigin exAddr false []) [] 3 (wReq []) 0).final
+    = .refused .originMissing := by decide
 -- websocket_refused / websocket_refused_answer: capitals, and a second Upgrade value
 def exWs : Req := { exGood with upgrade := [str "h2c", str "WebSocket"] }
 example : IsWebsocketUpgrade exWs ∧ (newAdminHandler exCfg exAddr false exPats).remote = none := by decide
